@@ -5,9 +5,9 @@ import re
 from botocore.exceptions import IncompleteReadError, ReadTimeoutError
 
 from explore import UserExc, obj_bytes
-from fakes3 import InjectedFault, InjectedInterrupt
+from fakes3 import InjectedBase, InjectedFault, InjectedInterrupt
 
-_FATAL = (InjectedFault, InjectedInterrupt)
+_FATAL = (InjectedFault, InjectedInterrupt, InjectedBase)
 from sched import Deadlock, Livelock
 
 FINAL = ('success', 'failed', 'cancelled')
@@ -549,7 +549,10 @@ def judge_C11(v):
     # one is created (a skipped part's buffer is dropped with its task; a request thread may still be letting go of one)
     held = max([e['alive_before'] + 1 for e in v.ev if e['k'] == 'body-created' and e['in_memory'] and 'alive_before' in e] or [0])
     held_bound = bound + cfg['max_request_concurrency']
-    if held > held_bound:
+    base_faults = any(f.get('exc_kind') == 'base' or f.get('kind') == 'base' for f in v.sc['faults'])
+    # (a non-Exception raised inside a task stays on that task's executor future together with its traceback, whose
+    #  frames hold the part body until the future is dropped: such runs are not judged here)
+    if held > held_bound and not base_faults:
         out.append(('upload-buffers-held', v.wit(reachable_unclosed_buffers=held, bound=held_bound),
                     '%d stream upload buffers reachable and not closed at once (max_in_memory_upload_chunks %d + '
                     'max_submission_concurrency %d + max_request_concurrency %d = %d)'
